@@ -463,8 +463,19 @@ fn floating(ctx: &Ctx, is128: bool, kemp: bool, st: &mut St, rng: &mut Rng, poin
     for ts in ts {
         let port = ports[rng.below(ports.len() as u64) as usize];
         m.set_clock(ts);
+        let before = (m.emu.verif_paging(), m.emu.border_color() as u8);
         let got = m.inp(port);
         st.fb_points += 1;
+        // "reads ... reach that device and no other": a read that nobody claims changes nothing
+        let after = (m.emu.verif_paging(), m.emu.border_color() as u8);
+        if after != before {
+            ctx.violation(
+                &format!("port-decode:read:{}:side-effect", if is128 { "128k" } else { "48k" }),
+                &format!("[kempston={} mouse={}] IN {:04x} (unclaimed) at frame T={} returned {:02x} and changed (paging latch, locked, border) from {:?} to {:?}", c.kemp, c.mouse, port, ts, got, before, after),
+                jobj! {"is128"=>is128,"t"=>ts,"port"=>port,"got"=>got},
+            );
+            return;
+        }
         // sample time is somewhere inside the IN A,(C) instruction: [ts+4, ts+12]; +-8 T guard
         let (lo, hi) = (ts as i64 + 4 - 8, ts as i64 + 12 + 8);
         let mut allowed: Vec<u8> = vec![0xFF];
